@@ -12,6 +12,7 @@
   lemmas in Proofs/C11.lean and Proofs/C11_Api.lean.  This file states the property clauses and derives them.
 -/
 import BitstringModel.Proofs.C11_Api
+import BitstringModel.Proofs.C11_Scale
 import BitstringModel.Proofs.C11_Reenc_P3
 import BitstringModel.Proofs.C11_Reenc_P4
 import BitstringModel.Proofs.C11_Reenc_E5M2S
@@ -238,19 +239,29 @@ theorem mxint_spec_is_nearest_even (num : Int) (den : Nat) (hd : 0 < den) :
 theorem mxint_roundtrip (c : Nat) (hc : c < 256) : (decode .mxint c >>= encode .mxint .saturate) = .ok c :=
   of_decide_eq_true (allBelow_spec mxintReencChk c hc)
 
-/- Full statement (NOT proved in general — listed in NOT_YET_PROVED):
-     theorem mxint_rne (f : Nat) (hf : f < 2 ^ 64) :
-       mxintEnc f = match f64Val f with
-         | .nan => .error .value | .inf s => .ok (if s then 0x80 else 0x7f) | .fin s m e => .ok (mxintCodeSpec s m e)
-   What is missing: a proof that the modelled float64 product `f * 64` (`roundBits 11 52`) is exact below the overflow
-   threshold; the rest (`round()` = `rneDiv`, saturation) is `mxint_spec_is_nearest_even` plus case analysis.
-   (A kernel enumeration over the 65 536 half-precision inputs was measured at about 30 CPU-minutes and left out.)
-   Proved instead: the statement on every representable value (`mxint_rne_partial`, all 256 codes) and on the two inputs
-   on which the earlier add-0.5 implementation went wrong (`mxint_above_tie`).  Every half-precision input and the
-   float64 ties ±1 ulp are compared with an exact-rational oracle by the correspondence run. -/
+/-- `f64Mul_pow2_exact`: in the float model, multiplying a finite non-zero float64 by a power of two only changes the
+    exponent, as long as the result stays between the subnormal limit and the overflow limit (no enumeration: from
+    `f64OfDyadic_exact`, exactness of round-to-nearest on representable values, Proofs/C11_Ieee.lean). -/
+theorem float_mul_pow2_exact (f p : Nat) (s : Bool) (m : Nat) (e k : Int)
+    (hf : f64Val f = .fin s m e) (hm : m ≠ 0) (hp : f64Val p = .fin false 1 k) (hk : -1074 ≤ e + k)
+    (hr : (ilog2 m : Int) + (e + k) ≤ 1023) : f64Val (f64Mul f p) = .fin s m (e + k) :=
+  f64Mul_pow2_exact f p s m e k hf hm hp hk hr
 
-/-- `mxint_rne` restricted to the exactly representable inputs: for every code `c`, `mxint2bitstore` applied to the
-    float `int8(c)·2⁻⁶` returns the nearest-even code of 64 times that value — which is `c`. -/
+/-- `f64Round_spec`: `round(g)` is the declarative nearest integer (ties to even) of the exact value of `g`. -/
+theorem f64Round_spec (g : Nat) (s : Bool) (m : Nat) (e : Int) (hg : f64Val g = .fin s m e) :
+    IsNearestEvenInt (sgnMant s (dyadicNum m e)) (dyadicDen e) (f64Round g) := by
+  unfold f64Round; rw [hg]
+  exact rneDiv_nearest _ _ (dyadicDen_pos e)
+
+/-- `mxint_rne`, for EVERY float64 pattern and without enumeration: `mxint2bitstore` returns the nearest-even code of
+    the exact rational `64·x` clipped to [−128, 127] (`mxintCodeSpec`), ±inf saturate to 0x7f / 0x80, NaN → ValueError.
+    (`f * 64` is exact or overflows to ±inf — then the exact value is ≥ 2^1024 and the specification saturates too;
+    `round()` is `rneDiv` on the exact value; the two saturation tests compare the exact value with 127 and −128.) -/
+theorem mxint_rne (mode : Mode) (f : Nat) : encode .mxint mode f = mxintSpecOf (f64Val f) := mxintEnc_spec f
+
+/-- On the exactly representable inputs the nearest-even code is the code itself: for every code `c`, `mxint2bitstore`
+    applied to the float `int8(c)·2⁻⁶` returns `c` (kernel enumeration over the 256 codes; kept as an independent check
+    of `mxint_rne`). -/
 theorem mxint_rne_partial (c : Nat) (hc : c < 256) :
     mxintEnc (mxintDec c) = .ok (match mxintDecSpec c with | .fin s m e => mxintCodeSpec s m e | _ => 0) ∧
     (match mxintDecSpec c with | .fin s m e => mxintCodeSpec s m e | _ => 0) = c :=
@@ -295,6 +306,26 @@ theorem scaled_encode_divides (n : Name) (mode : Mode) (s : Scale) (hz : s.isZer
     (hq : f64Div f s.toF64 = some q) : scaledEncode n mode s f = encode n mode q := by
   simp [scaledEncode, hz, hq]
 
+/-- `2.0 ** k` is exactly `2^k` for every normal exponent (the scale values the documentation recommends). -/
+theorem pow2_scale_value (k : Int) (hlo : -1022 ≤ k) (hhi : k ≤ 1023) : f64Val (pow2F64 k) = .fin false 1 k :=
+  pow2F64_val k hlo hhi
+
+/-- `scaled_pow2_exact`, decode: with a scale equal to `2^k` (float or int), every code of every format whose value is
+    the finite non-zero `(−1)^s·m·2^e` is parsed as exactly `(−1)^s·m·2^(e+k)`, provided that is a float64 (no
+    enumeration; multiplication by a power of two is exact in the float model). -/
+theorem scaled_pow2_decode_exact (n : Name) (sc : Scale) (k : Int) (hk : f64Val sc.toF64 = .fin false 1 k)
+    (c v : Nat) (hv : decode n c = .ok v) (s : Bool) (m : Nat) (e : Int) (hval : f64Val v = .fin s m e) (hm : m ≠ 0)
+    (hlo : -1074 ≤ e + k) (hhi : (ilog2 m : Int) + (e + k) ≤ 1023) :
+    ∃ w, scaledDecode n sc c = .ok w ∧ f64Val w = .fin s m (e + k) :=
+  scaledDecode_pow2_exact n sc k hk c v hv s m e hval hm hlo hhi
+
+/-- `scaled_pow2_exact`, encode: `Dtype(name, scale=2^k).build(x)` encodes exactly `x·2^(−k)` with the unscaled encoder. -/
+theorem scaled_pow2_encode_exact (n : Name) (mode : Mode) (sc : Scale) (k : Int)
+    (hk : f64Val sc.toF64 = .fin false 1 k) (f : Nat) (s : Bool) (m : Nat) (e : Int)
+    (hval : f64Val f = .fin s m e) (hm : m ≠ 0) (hlo : -1074 ≤ e - k) (hhi : (ilog2 m : Int) + (e - k) ≤ 1023) :
+    ∃ q, f64Val q = .fin s m (e - k) ∧ scaledEncode n mode sc f = encode n mode q :=
+  scaledEncode_pow2_exact n mode sc k hk f s m e hval hm hlo hhi
+
 /-! ## Non-vacuity: the hypotheses above are satisfiable by concrete, non-trivial values -/
 
 example : Name.fmt? .e4m3mxfp = some Fmt.e4m3 ∧ (0x7e : Nat) < 2 ^ Fmt.e4m3.width ∧ decodeSpec Fmt.e4m3 0x7e ≠ .nan ∧
@@ -310,5 +341,9 @@ example : IsNearestEven Fmt.e2m1 (5 * 2 ^ 23) 4 :=
   nearest_of_local (strictMono_all .e2m1) _ _ (by decide) (by decide +kernel)
 example : Scale.isZero (.flt 0x8000000000000000) = true ∧ Scale.isZero (.int 1024) = false := by decide +kernel
 example : f64Div 0x40b8000000000000 (Scale.toF64 (.int 1024)) = some 0x4018000000000000 := by decide +kernel  -- 6144/1024 = 6
+example : f64Val (Scale.toF64 (.int 1024)) = .fin false 1 10 ∧ f64Val (Scale.toF64 (.flt (pow2F64 (-7)))) = .fin false 1 (-7) := by
+  decide +kernel
+example : mxintSpecOf (f64Val 0x3f80000000000001) = .ok 1 ∧ mxintSpecOf (f64Val 0x7ff0000000000000) = .ok 0x7f ∧
+    mxintSpecOf (f64Val 0xc000000000000000) = .ok 0x80 := by decide +kernel
 
 end BM.C11
